@@ -219,6 +219,19 @@ def eat (s : PState) : Res :=
   | .ok s1 => let s2 := s1.lex; skip (skipFuel s2) s2
   | r => r
 
+/-- `token_stream.cursor()`: the byte offset just after the look-ahead token -/
+def cursor (s : PState) : Nat := s.curStart + byteLen s.curText
+
+/-- the error part of `ParserBase::finish`: when the look-ahead is `Eof`, a message still parked in
+the token source (an unterminated conditional) becomes an error at the end of the text -/
+def finish (s : PState) : PState :=
+  if s.cur == .Eof then
+    match s.src.takeError with
+    | (some m, src) =>
+      { s with src := src, errors := { start := s.cursor, stop := s.cursor, msg := m } :: s.errors }
+    | (none, src) => { s with src := src }
+  else s
+
 def startNode (s : PState) (k : SyntaxKind) : PState :=
   { s with b := { cur := [], parents := (k, s.b.cur) :: s.b.parents }, steps := s.steps + 1 }
 
@@ -301,6 +314,13 @@ def exec (defs : Defs) (recover : List TokenKind) : Nat → Prog → PState → 
     | .setLocal => .ok { s with locals := true :: s.locals.tail }
     | .ifLocal t e =>
       if s.locals.head? == some true then exec defs recover fuel t s else exec defs recover fuel e s
+
+/-- the error `ParserBase::finish` appends for this text (`PState.finish_errors`): the message
+left in the token source, at the end of the text -/
+def endErrors (input : List Char) : List SynError :=
+  match Src.endMessage input with
+  | some m => [{ start := byteLen input, stop := byteLen input, msg := m }]
+  | none => []
 
 /-- `ParserBase::new` -/
 def PState.init (input : List Char) : PState :=
